@@ -3,6 +3,8 @@
 -/
 import Distill.Props.DomHelpers
 import Distill.Model.Candidates
+import Distill.Model.Derive
+import Distill.Proofs.Convert
 import Distill.Proofs.Style
 import Distill.Proofs.Prune
 import Distill.Model.Extract
@@ -140,6 +142,31 @@ theorem no_word_no_match (ws : List (List Char)) (s : List Char) (h : ∀ w ∈ 
   · rfl
   · obtain ⟨w, hw, ho⟩ := List.any_eq_true.mp hh
     rw [h w hw] at ho; cases ho
+
+/-- **From the written class / id to pruning**: in skip-unlikelies mode an element (not `body`, not
+`a`, not inside a table) whose class + " " + id contains a word of the unlikely list — in any case,
+anywhere — and no word of the "maybe" list contributes no builder call at all, with the two answers
+computed by the model from the attributes (`deriveAtoms`). -/
+theorem marked_element_pruned (A : CAtoms) (anc : List String) (hp : Bool)
+    (i : Nat) (t : String) (attrs : List Attr) (ks : List Node)
+    (hU : A.rxUnlikely i = derivedUnlikely attrs) (hM : A.rxMaybe i = derivedMaybe attrs)
+    (uw mw : List (List Char)) (huw : Cand.unlikelyWords = some uw) (hmw : Cand.maybeWords = some mw)
+    (w sp a b : List Char) (hw : w ∈ uw) (hs : Style.FoldsTo sp w)
+    (hdata : Cand.matchString (getAttr attrs "class") (getAttr attrs "id") = a ++ sp ++ b)
+    (hno : ∀ m ∈ mw, Cand.occurs m (a ++ sp ++ b) = false)
+    (hctx : anc.contains "table" = false ∧ t ≠ "body" ∧ t ≠ "a") :
+    convertNode { skipUnlikely := true } A anc hp (.elem i t attrs ks) = [] := by
+  have h1 : derivedUnlikely attrs = true := by
+    unfold derivedUnlikely
+    rw [huw, hdata]
+    exact listed_word_matches uw w sp a b hw hs
+  have h2 : derivedMaybe attrs = false := by
+    unfold derivedMaybe
+    rw [hmw, hdata]
+    exact no_word_no_match mw _ hno
+  obtain ⟨hc1, hc2, hc3⟩ := hctx
+  have hc1' : ¬ "table" ∈ anc := by simpa using hc1
+  simp [convertNode_elem, visitElem, gateSkip, hU, hM, h1, h2, hc1', hc2, hc3]
 
 example : Cand.answers "Main SIDEBAR" "x" "" "" "By Jane" = some ⟨true, true, false⟩ := by decide +kernel
 example : Cand.answers "story" "p-Author" "" "" "By Jane" = some ⟨false, false, true⟩ := by decide +kernel
